@@ -4,6 +4,7 @@ import Req.Client.Attempt
 import Req.Client.Backoff
 import Req.Client.RetryDyn
 import Req.Client.Exchange
+import Req.Client.Backoff64
 /-!
 Driver lanes of C10.
 
@@ -500,7 +501,25 @@ def laneInner : List String → String
 
 end inner
 
+/-- `c10half <min> <max> <attempt>` → `halfTemp` of the exact float model;
+`c10backoff64 <min> <max> <attempt> <jitter>` → the interval for that value of `rand.Int63n`. -/
+def laneHalf64 : List String → String
+  | [mn, mx, a] =>
+    let r : Option String := do
+      pure (toString (Req.Backoff64.half (← mn.toInt?) (← mx.toInt?) (← a.toNat?)))
+    r.getD "bad-op"
+  | _ => "bad-op"
+
+def laneBackoff64 : List String → String
+  | [mn, mx, a, j] =>
+    let r : Option String := do
+      pure ("ok:" ++ toString (Req.Backoff64.interval (← mn.toInt?) (← mx.toInt?) (← a.toNat?) (← j.toNat?)))
+    r.getD "bad-op"
+  | _ => "bad-op"
+
 def lanes : List (String × (List String → String)) := [
+  ("c10half", laneHalf64),
+  ("c10backoff64", laneBackoff64),
   ("c10inner", laneInner),
   ("c10run", laneRun true),
   -- same model, the per-attempt wire requests not printed (the e2e lane compares raw captures itself)
